@@ -191,6 +191,11 @@ pub fn openssl_ca(d: &Value, key: &KeyInfo) -> Result<Vec<u8>, String> {
 }
 
 fn import_logged(der: &[u8], via: &str, case: &str, args: Value, key: &LiveKey, out: &mut Out) -> Option<CertificateParams> {
+	import_logged_orig(der, via, case, args, key, None, out)
+}
+
+/// `orig`: the parameters the certificate was generated from, where rcgen made it (compared with the library's own `==`)
+fn import_logged_orig(der: &[u8], via: &str, case: &str, args: Value, key: &LiveKey, orig: Option<&CertificateParams>, out: &mut Out) -> Option<CertificateParams> {
 	let r = guarded(|| match via {
 		"pem" => CertificateParams::from_ca_cert_pem(&pem_of("CERTIFICATE", der)),
 		_ => CertificateParams::from_ca_cert_der(&pki_types::CertificateDer::from(der.to_vec())),
@@ -204,6 +209,10 @@ fn import_logged(der: &[u8], via: &str, case: &str, args: Value, key: &LiveKey, 
 				_ => CertificateParams::from_ca_cert_pem(&pem_of("CERTIFICATE", der)),
 			});
 			obs["pemDerAgree"] = json!(matches!(other, Outcome::Ok(ref q) if *q == p));
+			obs["apiEq"] = match orig {
+				Some(o) => json!({"k": "some", "dn": p.distinguished_name == o.distinguished_name, "sans": p.subject_alt_names == o.subject_alt_names}),
+				None => json!({"k": "none", "dn": true, "sans": true}),
+			};
 			// re-issue from the imported parameters with the same key
 			let before = p.clone();
 			obs["reissue"] = match guarded(|| p.clone().self_signed(&key.kp)) {
@@ -335,7 +344,38 @@ pub fn run(cert_cases: &str, import_cases: &str, out_path: &str, tier: &str) {
 		let facts = ca_facts(cert.der()).unwrap_or(json!({}));
 		for v in ["der", "pem"] {
 			let args = json!({"origin": "rcgen", "via": v, "src": p, "key": key_args(key), "cert": facts});
-			import_logged(cert.der(), v, &case_id, args, key, &mut out);
+			import_logged_orig(cert.der(), v, &case_id, args, key, Some(cert.params()), &mut out);
+		}
+	}
+	// texts made of characters up to U+00FF with one above U+007F (one octet in Latin-1, two in UTF-8, a zero high octet in
+	// UCS-2), alone and mixed with wider ones, in every string kind that can hold them
+	{
+		let alg = "ed25519";
+		let via = pick_via(alg, &mut Rng::new(seed ^ 0x1a71));
+		if pool.get(alg, &via, &mut Rng::new(seed)).is_ok() {
+			let key = &pool.keys[&format!("{}/{}", alg, via)][0];
+			let mut n = 0;
+			for kind in ["utf8", "bmp", "universal", "teletex"] {
+				for text in ["Z\u{fc}rich", "Caf\u{e9}", "\u{ff}", "\u{80}x", "\u{a0}", "Z\u{fc}rich \u{2713}", "plain"] {
+					n += 1;
+					let case_id = format!("import-latin1/{}", n);
+					let mut p = base_params_desc();
+					p["isCa"] = json!({"k": "Ca", "pl": {"k": "none", "n": 0}});
+					p["dn"] = json!([{"ty": "2.5.4.10", "kind": kind, "val": hex(text.as_bytes())}, {"ty": "2.5.4.3", "kind": "utf8", "val": hex(b"latin-1 range")}]);
+					if to_params(&p).is_err() {
+						continue; // the kind does not take the text (TeletexString is narrower than Latin-1)
+					}
+					let (cert, _) = match self_signed_logged(&p, key, "import-src", &case_id, &mut out) {
+						Some(x) => x,
+						None => continue,
+					};
+					let facts = ca_facts(cert.der()).unwrap_or(json!({}));
+					for v in ["der", "pem"] {
+						let args = json!({"origin": "rcgen", "via": v, "src": p, "key": key_args(key), "cert": facts});
+						import_logged_orig(cert.der(), v, &case_id, args, key, Some(cert.params()), &mut out);
+					}
+				}
+			}
 		}
 	}
 	// ---- part 2 (C03): issuer names / key-id methods / algorithms / origins ----
